@@ -99,6 +99,7 @@ MC_ORACLE static int announce (int slot, int var, int reader, int64_t dl, nsync_
 	w->state = 1; w->var = var; w->reader = reader; w->timed = dl != MC_NEVER; w->dl = dl; w->note = note;
 	return ++announced;
 }
+MC_ORACLE static int count_cv_waiter (void) { return ++announced; }
 MC_ORACLE static void returned (int slot, int res) {
 	struct wrec *w = &wr[slot];
 	int truth = val[w->var] != 0;
@@ -171,6 +172,8 @@ static void mw_thread (int me) {
 		case 'V':
 			wlock ();
 			while (!cvflag) {
+				int n = count_cv_waiter ();
+				mc_flag_set (&announced_ge[n], 1);
 				h_leave (&mu, 1);
 				nsync_cv_wait (&cv, &mu);
 				h_enter (&mu, 1, "return from nsync_cv_wait"); sec_begin ();
